@@ -1,9 +1,10 @@
 """The abstract groups of the nine supported curves, as seen through the native point objects (C05, C06).
 
-A point of a two-coordinate curve (Weierstrass P-192 ... P-521, Edwards 25519 / 448) is the pair of its canonical affine
-coordinates 0 <= x, y < p packed into ONE integer  P = x * M + y  (M = 2**528 > every p), so that a group operation is
-one uninterpreted symbol.  The neutral element uses the library's conventions: (0, 0) on Weierstrass curves (there is no
-affine point with x = y = 0 on them since b != 0), (0, 1) on Edwards curves.
+A point of a two-coordinate curve (Weierstrass P-192 ... P-521, Edwards 25519 / 448) is an abstract element P (an integer
+naming it) with uninterpreted projections px(P), py(P) = its canonical affine coordinates 0 <= x, y < p, and pt(x, y) = the
+element with these coordinates (px(pt(x, y)) == x, py(pt(x, y)) == y; a valid element is determined by its coordinates:
+pt(px(P), py(P)) == P).  The neutral element uses the library's conventions: (0, 0) on Weierstrass curves (no affine point
+has x = y = 0 there since b != 0), (0, 1) on Edwards curves.
 An x-only point of Curve25519 / Curve448 is the integer U = canonical u-coordinate in [0, p), or U = -1 for the point at
 infinity (the class of +-P, RFC 7748).
 
@@ -12,21 +13,26 @@ formulas is the subject of C06 part 1-2 (C engine, /verif/contracts/ec).  What i
 (trusted mathematics), attached as `facts` to the symbols or available as ground lemma INSTANCES (DESIGN 2.6):
     smul_assoc(cid, P, a, b)   instance of   b*(a*P) == (a*b)*P      (Z acts on an abelian group)
     xsmul_assoc(cid, U, a, b)  the same for the x-only ladder (well defined on the classes +-P)
+Facts are written with ite(c, a, True) instead of `c ==> a`: same meaning, evaluated without forking.
 """
 
 SIG = {
+    'px': {'sort': 'int', 'uf': True},
+    'py': {'sort': 'int', 'uf': True},
+    'pt': {'sort': 'int', 'uf': True, 'facts': ['spec.ecgroup.px(result) == x', 'spec.ecgroup.py(result) == y']},
     'valid': {'sort': 'bool', 'uf': True,
-              'facts': ['result ==> (0 <= spec.ecgroup.px(P) and spec.ecgroup.px(P) < spec.keys.curve_p(cid) and '
-                        '0 <= spec.ecgroup.py(P) and spec.ecgroup.py(P) < spec.keys.curve_p(cid))',
-                        'P == spec.ecgroup.neutral(cid) ==> result']},
+              'facts': ['ite(result, 0 <= spec.ecgroup.px(P), True)', 'ite(result, spec.ecgroup.px(P) < spec.keys.curve_p(cid), True)',
+                        'ite(result, 0 <= spec.ecgroup.py(P), True)', 'ite(result, spec.ecgroup.py(P) < spec.keys.curve_p(cid), True)',
+                        'ite(result, spec.ecgroup.pt(spec.ecgroup.px(P), spec.ecgroup.py(P)) == P, True)',
+                        'ite(P == spec.ecgroup.neutral(cid), result, True)']},
     'add': {'sort': 'int', 'uf': True,
-            'facts': ['(spec.ecgroup.valid(cid, P) and spec.ecgroup.valid(cid, Q)) ==> spec.ecgroup.valid(cid, result)',
-                      'Q == spec.ecgroup.neutral(cid) ==> result == P', 'P == spec.ecgroup.neutral(cid) ==> result == Q']},
+            'facts': ['ite(spec.ecgroup.valid(cid, P), ite(spec.ecgroup.valid(cid, Q), spec.ecgroup.valid(cid, result), True), True)',
+                      'ite(Q == spec.ecgroup.neutral(cid), result == P, True)', 'ite(P == spec.ecgroup.neutral(cid), result == Q, True)']},
     'smul': {'sort': 'int', 'uf': True,
-             'facts': ['(spec.ecgroup.valid(cid, P) and k >= 0) ==> spec.ecgroup.valid(cid, result)',
-                       'k == 0 ==> result == spec.ecgroup.neutral(cid)', 'k == 1 ==> result == P']},
+             'facts': ['ite(spec.ecgroup.valid(cid, P), ite(k >= 0, spec.ecgroup.valid(cid, result), True), True)',
+                       'ite(k == 0, result == spec.ecgroup.neutral(cid), True)', 'ite(k == 1, result == P, True)']},
     'xsmul': {'sort': 'int', 'uf': True,
-              'facts': ['result >= -1 and result < spec.keys.curve_p(cid)', 'U == -1 ==> result == -1', 'k == 1 ==> result == U']},
+              'facts': ['result >= -1', 'result < spec.keys.curve_p(cid)', 'ite(U == -1, result == -1, True)', 'ite(k == 1, result == U, True)']},
     'smul_assoc': {'sort': 'bool', 'uf': True,
                    'facts': ['result', 'spec.ecgroup.smul(cid, spec.ecgroup.smul(cid, P, a), b) == spec.ecgroup.smul(cid, P, a * b)']},
     'xsmul_assoc': {'sort': 'bool', 'uf': True,
@@ -35,26 +41,25 @@ SIG = {
 
 from . import keys
 
-M = 2 ** 528
-
 
 def pt(x, y):
-    return x * M + y
+    """the element with canonical affine coordinates (x, y)"""
+    pass
 
 
 def px(P):
-    return P // M
+    pass
 
 
 def py(P):
-    return P % M
+    pass
 
 
 def neutral(cid):
     """the library's affine representation of the neutral element"""
     if cid == 6 or cid == 7:
-        return 1                # (0, 1)
-    return 0                    # (0, 0)
+        return pt(0, 1)
+    return pt(0, 0)
 
 
 def neg(cid, P):
